@@ -150,6 +150,16 @@ def r2(ck):
         return
     callers = cg.callers(ch.id)
     ck.require(callers == [ao.id], "C16-R2", "one caller of choose_filename_to_patch", "choose_filename_to_patch is called from %s" % callers, ch.where())
+    # the resolution routine is asked "old name, else new name" whatever the direction: its second argument is the patch's old name
+    # and its third the new name on every path (-R exchanges the two sides of the hunks, not the roles of the two names)
+    for bb, t, c in calls_named(ao, "rapidquilt::apply::common::choose_filename_to_patch"):
+        for i, acc in ((1, "old_filename"), (2, "new_filename")):
+            alts = df.alternatives(ao, df.operand_expr(ao, t["args"][i])) or []
+            good = bool(alts) and all(df.is_call(x, "FilePatch::<'a, Line>::" + acc) for x in alts)
+            ck.require(good, "C16-R2", "%s() is what the resolution routine gets as its %s name" % (acc, acc.split("_")[0]),
+                       "choose_filename_to_patch is given %s as its %s name: the rule 'the old name if that file exists, else the new name' "
+                       "would be applied to other names (e.g. exchanged under -R)" % ([df.show(x, 70) for x in alts], acc.split("_")[0]), ao.where(t),
+                       ok_detail="file_patch.%s() on every path" % acc)
     c2 = cg.callers(ao.id)
     seq, aw = prog.one(A["seq"]), prog.one(A["apply_worker"])
     ck.require(set(c2) == {seq.id, aw.id}, "C16-R2", "both drivers apply through apply_one_file_patch",
@@ -413,7 +423,16 @@ def r7(ck):
                 every = il["head"] not in cfg.reachable(fn, [il["some_edge"][1]], blocked={b2 for b2, t2 in inside})
                 one = len(inside) == 1 and cfg.innermost_loop_of(fn, inside[0][0]) is not None and cfg.innermost_loop_of(fn, inside[0][0])[0] == il["head"]
                 outside = [(b2, t2) for b2, t2 in mine if b2 not in il["body"]]
-                before = cfg.dominates(fn, il["head"], bb) and bool(il["none_edge"]) and bb in cfg.dominated_by_edge(fn, il["none_edge"])
+                # the rest is taken once the loop is over: after `level` draws, or earlier only because the name has no component left
+                other_exits = [e_ for e_ in il["exit_edges"] if e_ != il["none_edge"] and not fn.blocks[e_[1]]["cleanup"]]
+                ran_out = set()
+                for g in guards.find_bool_guards(fn, lambda x: df.is_call(x, "Option::<T>::is_none") and df.is_call(x[2][0], "Components<'a> as core::iter::traits::iterator::Iterator>::next")):
+                    ran_out.add(g["true_edge"])
+                for sw in pt.discr_switches(fn, lambda x, rv: df.is_call(x, "Components<'a> as core::iter::traits::iterator::Iterator>::next")):
+                    if sw["edges"].get("None"):
+                        ran_out.add(sw["edges"]["None"])
+                exits_ok = all(any(e_ == r_ or e_[0] in cfg.dominated_by_edge(fn, r_) for r_ in ran_out) for e_ in other_exits)
+                before = cfg.dominates(fn, il["head"], bb) and bb not in il["body"] and bool(il["none_edge"]) and exits_ok
                 if every and one and not outside and before:
                     good = True
                     detail = "for _ in 0..level { components.next() } then as_path()"
